@@ -75,8 +75,8 @@ class Model:
     def unpack_item(self, v: Any, base: T.Term, i: int, n: int) -> Any:
         if isinstance(base, tuple) and base and base[0] == "elem" and isinstance(base[1], tuple) and base[1] and base[1][0] == "zip":
             return ("elem", base[1][1][i]) if i < len(base[1][1]) else T.opaque("unpack")
-        if isinstance(base, tuple) and base and base[0] == "call":
-            return ("item", base, i)
+        if isinstance(base, tuple) and base and base[0] == "tolist":
+            return ("getitem", base, T.C(i))          # a, b = s.tolist(): the elements by position
         return ("item", base, i)
 
     # ------------------------------------------------------------------ attribute access
